@@ -1,9 +1,10 @@
 /-!
 # M6 — small-step interleaving model of the locking / CAS / channel protocol of godi
 
-Anchors: `/repo/scope.go` and `/repo/provider.go` as of commit `d23542b` (after the `fix:` commits
-`1998b84`, `2bd1169`, `611f8a8`, `d23542b`): line numbers in the comments below refer to those two
-files at that commit; `(*scope).Close` is `dispose` (scope.go:264-337) behind a thin wrapper. When
+Anchors: `/repo/scope.go` and `/repo/provider.go` as of commit `975a6cd` (after the `fix:` commits
+`1998b84`, `2bd1169`, `611f8a8`, `d23542b`, `0c7a2e0`, `64d7b34`, `0cb30f3`): line numbers in the
+comments below refer to those two files at that commit; `(*scope).Close` is `dispose`
+(scope.go:275-353) behind a thin wrapper. When
 the source moves, `Gen/LockFacts.lean` (regenerated on every run) is what ties the model to it.
 
 One scope `S` (created by `provider.CreateScope`, so `parentScope == nil`) is modelled in full:
@@ -93,43 +94,47 @@ deriving DecidableEq, Repr, Hashable
 inductive Pc
   -- `scope.Get` of scoped key `k`; `o = true`: nested inside the construction of `a`
   | rChk (k : Key) (o : Bool)             -- scope.go:130  atomic.LoadInt32(&s.disposed)
-  | rRead (k : Key) (o : Bool)            -- scope.go:487 -> 366-368  RLock instancesMu; read; RUnlock
-  | rMu (k : Key) (o : Bool)              -- scope.go:348-357  creatingMu region: find or make the mutex
-  | rLock (k : Key) (o : Bool)            -- scope.go:359  m.Lock()            BLOCKING
-  | rRe (k : Key) (o : Bool)              -- scope.go:497 -> 366-368  second look at the cache
-  | rCtor (k : Key) (o : Bool)            -- scope.go:574  USER constructor
-  | rSet (k : Key) (o : Bool) (i : Inst)  -- scope.go:381-385  Lock instancesMu; if != nil write; Unlock
-  | rTrk (k : Key) (o : Bool) (i : Inst)  -- scope.go:420-432  Lock disposablesMu; load disposed; append; Unlock
-  | rSelf (k : Key) (o : Bool) (i : Inst) -- scope.go:424  USER Close of the late instance
-  | rUnl (k : Key) (o : Bool) (r : Res)   -- scope.go:495  deferred m.Unlock()
+  | rRead (k : Key) (o : Bool)            -- scope.go:512 -> 382-384  RLock instancesMu; read; RUnlock
+  | rMu (k : Key) (o : Bool)              -- scope.go:364-373  creatingMu region: find or make the mutex
+  | rLock (k : Key) (o : Bool)            -- scope.go:375  m.Lock()            BLOCKING
+  | rRe (k : Key) (o : Bool)              -- scope.go:522 -> 382-384  second look at the cache
+  | rCtor (k : Key) (o : Bool)            -- scope.go:607  USER constructor
+  | rSet (k : Key) (o : Bool) (i : Inst)  -- scope.go:397-401  Lock instancesMu; if != nil write; Unlock
+  | rTrk (k : Key) (o : Bool) (i : Inst)  -- scope.go:436-448  Lock disposablesMu; load disposed; append; Unlock
+  | rSelf (k : Key) (o : Bool) (i : Inst) -- scope.go:440  USER Close of the late instance
+  | rUnl (k : Key) (o : Bool) (r : Res)   -- scope.go:520  deferred m.Unlock()
   -- `scope.Get` of a transient
-  | tChk | tCtor | tTrk (i : Inst) | tSelf (i : Inst)   -- 130, 574, 388 -> 420-432, 424
+  | tChk | tCtor | tTrk (i : Inst) | tSelf (i : Inst)   -- 130, 607, 404 -> 436-448, 440
   -- `scope.Get` of a singleton
-  | gChk | gLoad                                        -- 130, 474 (sync.Map.Load, provider.go:266)
+  | gChk | gLoad                                        -- 130, 490 (sync.Map.Load, provider.go:266)
+  | gMiss1                                              -- scope.go:496  after a miss: load s.disposed
+  | gMiss2                                              -- scope.go:499  then load provider.disposed
   -- `scope.CreateScope`
   | sChk                  -- scope.go:203
   | sInit                 -- scope.go:211-212 -> 58-88: new child, USER initializers (80)
   | sAdd (c : Cid)        -- scope.go:219-226  Lock childrenMu; nil check; write; Unlock
   | sReg (c : Cid)        -- scope.go:229-236  Lock scopesMu; nil check; write; Unlock
-  | sSpawn (c : Cid)      -- scope.go:239      go watcher
+  | sRe (c : Cid)         -- scope.go:242      atomic.LoadInt32(&child.disposed)
+  | sUndo (c : Cid)       -- scope.go:243-245  Lock scopesMu; delete; Unlock  (then ErrScopeDisposed)
+  | sSpawn (c : Cid)      -- scope.go:250      go watcher
   -- `dispose` of child `c` (same code as below, the child's private parts folded into the CAS step)
-  | kCas (c : Cid) (k : K)   -- scope.go:265 (+279-308 on the child's own, empty, tables)
-  | kWait (c : Cid) (k : K)  -- scope.go:270  <-s.closed                       BLOCKING
-  | kDetP (c : Cid) (k : K)  -- scope.go:311-315  Lock S.childrenMu; delete; Unlock
-  | kDetS (c : Cid) (k : K)  -- scope.go:318-322  Lock scopesMu; delete; Unlock
-  | kSig (c : Cid) (k : K)   -- scope.go:274, 273 (deferred) closeErr = err; close(s.closed)  (+325-327 private)
+  | kCas (c : Cid) (k : K)   -- scope.go:276 (+293-324 on the child's own, empty, tables)
+  | kWait (c : Cid) (k : K)  -- scope.go:281  <-s.closed                       BLOCKING
+  | kDetP (c : Cid) (k : K)  -- scope.go:327-331  Lock S.childrenMu; delete; Unlock
+  | kDetS (c : Cid) (k : K)  -- scope.go:334-338  Lock scopesMu; delete; Unlock
+  | kSig (c : Cid) (k : K)   -- scope.go:285, 284 (deferred) closeErr = err; close(s.closed)  (+341-343 private)
   -- `dispose` of `S`
-  | cCas (k : K)                    -- scope.go:265  CompareAndSwapInt32(&s.disposed, 0, 1)
-  | cWait (k : K)                   -- scope.go:270-271  <-s.closed; read closeErr   BLOCKING
-  | cCancel (k : K)                 -- scope.go:279-281  s.cancel()
-  | cTake (k : K)                   -- scope.go:284-290  Lock childrenMu; copy; = nil; Unlock
-  | cKids (l : List Cid) (k : K)    -- scope.go:292-293  loop head / child.dispose()
-  | cTakeD (k : K)                  -- scope.go:299-302  Lock disposablesMu; take; = nil; Unlock
-  | cDrain (l : List Inst) (k : K)  -- scope.go:304-305  USER Close, last created first
-  | cDetS (k : K)                   -- scope.go:318-322  Lock scopesMu; delete; Unlock   (311-315 skipped: parentScope == nil)
-  | cNil (k : K)                    -- scope.go:325-327  Lock instancesMu; = nil; Unlock
-  | cErr (k : K)                    -- scope.go:274 (deferred, runs first)  s.closeErr = err   (plain write)
-  | cSig (k : K)                    -- scope.go:273 (deferred, runs last)   close(s.closed)
+  | cCas (k : K)                       -- scope.go:276  CompareAndSwapInt32(&s.disposed, 0, 1)
+  | cWait (k : K)                      -- scope.go:281-282  <-s.closed; read closeErr   BLOCKING
+  | cTake (k : K)                      -- scope.go:293-299  Lock childrenMu; copy; = nil; Unlock   (BEFORE the cancel: 0c7a2e0)
+  | cCancel (l : List Cid) (k : K)     -- scope.go:302-304  s.cancel()
+  | cKids (l : List Cid) (k : K)       -- scope.go:308-309  loop head / child.dispose()
+  | cTakeD (k : K)                     -- scope.go:315-318  Lock disposablesMu; take; = nil; Unlock
+  | cDrain (l : List Inst) (k : K)     -- scope.go:320-321  USER Close, last created first
+  | cDetS (k : K)                      -- scope.go:334-338  Lock scopesMu; delete; Unlock   (327-331 skipped: parentScope == nil)
+  | cNil (k : K)                       -- scope.go:341-343  Lock instancesMu; = nil; Unlock
+  | cErr (k : K)                       -- scope.go:285 (deferred, runs first)  s.closeErr = err   (plain write)
+  | cSig (k : K)                       -- scope.go:284 (deferred, runs last)   close(s.closed)
   -- `provider.Close`
   | pCas                       -- provider.go:194
   | pTake                      -- provider.go:201-207  Lock scopesMu; copy; = nil; Unlock
@@ -137,7 +142,7 @@ inductive Pc
   | pRest                      -- provider.go:218-251  root scope, singleton disposables, sync.Map cleared
   -- goroutines godi starts, and the environment
   | wS                         -- provider.go:180-182  <-ctx.Done(); s.Close()             BLOCKING
-  | wKid (c : Cid)             -- scope.go:239-241     <-ctx.Done(); child.Close()         BLOCKING
+  | wKid (c : Cid)             -- scope.go:250-252     <-ctx.Done(); child.Close()         BLOCKING
   | xCancel                    -- the user cancels the context `S` was created with
   | done (r : Res)
 deriving DecidableEq, Repr, Hashable
@@ -176,6 +181,8 @@ structure Sh where
   closed : List Inst := []       -- USER Close calls
   ever : KV (List Inst) := ⟨[], []⟩   -- every instance ever written into the cache, per key
   casWins : Nat := 0
+  snap : List Cid := []          -- the children `S.Close` found in the table (its loop's work list)
+  userCancelled : Bool := false  -- the user (not `S.Close`) cancelled the context
   panicked : Bool := false       -- a write to a nil map happened
   resurrected : Bool := false    -- an append to a disposal list already taken by Close happened
 deriving DecidableEq, Repr, Hashable
@@ -206,8 +213,8 @@ def scopeWrite (s : Sh) (c : Nat) : Sh :=
   | some l => { s with scopes := some (c :: l) }
 
 /-- Go: `delete(m, k)` is a no-op on a nil map -/
-def childDelete (s : Sh) (c : Cid) : Sh := { s with children := s.children.map (·.erase c) }
-def scopeDelete (s : Sh) (c : Nat) : Sh := { s with scopes := s.scopes.map (·.erase c) }
+def childDelete (s : Sh) (c : Cid) : Sh := { s with children := s.children.map (·.filter (· != c)) }
+def scopeDelete (s : Sh) (c : Nat) : Sh := { s with scopes := s.scopes.map (·.filter (· != c)) }
 
 /-- Go: `s.disposables = append(s.disposables, d)` works on a nil slice -/
 def dispAppend (s : Sh) (i : Inst) : Sh :=
@@ -267,7 +274,9 @@ def act (c : Cfg) (s : Sh) : Pc → Option (Pc × Sh × List Pc)
   | .tTrk i => if s.disposed then some (.tSelf i, s, []) else some (.done (.okT i), s.dispAppend i, [])
   | .tSelf i => some (.done .disposed, s.userClose i, [])
   | .gChk => if s.disposed then some (.done .disposed, s, []) else some (.gLoad, s, [])
-  | .gLoad => if s.singletons then some (.done .okS, s, []) else some (.done .notInit, s, [])
+  | .gLoad => if s.singletons then some (.done .okS, s, []) else some (.gMiss1, s, [])
+  | .gMiss1 => if s.disposed then some (.done .disposed, s, []) else some (.gMiss2, s, [])
+  | .gMiss2 => if s.pdisposed then some (.done .provDisposed, s, []) else some (.done .notInit, s, [])
   | .sChk => if s.disposed then some (.done .disposed, s, []) else some (.sInit, s, [])
   | .sInit =>
     if c.failInit then some (.kCas s.nextC (.ret .initErr), { s with nextC := s.nextC + 1 }, [])  -- scope.go:83
@@ -276,7 +285,9 @@ def act (c : Cfg) (s : Sh) : Pc → Option (Pc × Sh × List Pc)
     -- `if s.children == nil { unlock; child.Close(); return ErrScopeDisposed }; s.children[child] = …`
     if s.children.isNone then some (.kCas ch (.ret .disposed), s, []) else some (.sReg ch, s.childWrite ch, [])
   | .sReg ch =>
-    if s.scopes.isNone then some (.kCas ch (.ret .provDisposed), s, []) else some (.sSpawn ch, s.scopeWrite ch, [])
+    if s.scopes.isNone then some (.kCas ch (.ret .provDisposed), s, []) else some (.sRe ch, s.scopeWrite ch, [])
+  | .sRe ch => if ch ∈ s.kidDisp then some (.sUndo ch, s, []) else some (.sSpawn ch, s, [])
+  | .sUndo ch => some (.done .disposed, s.scopeDelete ch, [])
   | .sSpawn ch => some (.done (.okChild ch), s, [.wKid ch])
   | .kCas ch k =>
     if ch ∈ s.kidDisp then some (.kWait ch k, s, []) else some (.kDetP ch k, { s with kidDisp := ch :: s.kidDisp }, [])
@@ -286,10 +297,11 @@ def act (c : Cfg) (s : Sh) : Pc → Option (Pc × Sh × List Pc)
   | .kSig ch k => some (resume k, { s with kidClosed := ch :: s.kidClosed }, [])
   | .cCas k =>
     if s.disposed then some (.cWait k, s, [])
-    else some (.cCancel k, { s with disposed := true, casWins := s.casWins + 1 }, [])
+    else some (.cTake k, { s with disposed := true, casWins := s.casWins + 1 }, [])
   | .cWait k => if s.closedSig then some (resume k, s, []) else none
-  | .cCancel k => some (.cTake k, { s with cancelled := true }, [])
-  | .cTake k => some (.cKids (order c (s.children.getD [])) k, { s with children := none }, [])
+  | .cTake k =>
+    some (.cCancel (order c (s.children.getD [])) k, { s with children := none, snap := order c (s.children.getD []) }, [])
+  | .cCancel l k => some (.cKids l k, { s with cancelled := true }, [])
   | .cKids l k =>
     match l with
     | [] => some (.cTakeD k, s, [])
@@ -312,7 +324,7 @@ def act (c : Cfg) (s : Sh) : Pc → Option (Pc × Sh × List Pc)
   | .pRest => some (.done .okUnit, { s with singletons := false }, [])
   | .wS => if s.cancelled then some (.cCas (.ret .okUnit), s, []) else none
   | .wKid ch => if s.cancelled || decide (ch ∈ s.kidDisp) then some (.kCas ch (.ret .okUnit), s, []) else none
-  | .xCancel => some (.done .okUnit, { s with cancelled := true }, [])
+  | .xCancel => some (.done .okUnit, { s with cancelled := true, userCancelled := true }, [])
   | .done _ => none
 
 structure Thr where
